@@ -4,44 +4,57 @@
 (* SEVERAL entries at once through code that iterates over collections     *)
 (* (governance oracle-list update dropping k oracles, a bridge call with k *)
 (* different coins, a block end with many oracles: oracle-set creation and  *)
-(* power-diff, a batch request over several pooled transfers).  It is not   *)
+(* power-diff, a batch request over several pooled transfers), a parameter  *)
+(* change that later operations of the same history depend on, and an       *)
+(* inbound deposit forwarded over IBC (packet with a timeout).  It is not   *)
 (* bound to a listed property by itself; Determinism.tla consumes the       *)
 (* recordings of walks over its graph.                                      *)
 (***************************************************************************)
 EXTENDS Integers, Sequences, FiniteSets, TLC, Json
 CONSTANTS N,          \* oracles bonded by BondAll (equal stake)
           Ks,         \* how many entries one operation handles at once
-          MaxCalls, MaxBlocks, MaxSends
-VARIABLES bonded, online, calls, sends, batches, blocks, op
-svars == <<bonded, online, calls, sends, batches, blocks>>
+          MaxCalls, MaxBlocks, MaxSends, MaxIbc
+VARIABLES bonded, online, calls, sends, batches, blocks,
+          param,      \* the module's batch-timeout parameter, in units (1 = genesis value)
+          ibc,        \* deposits forwarded over IBC
+          op
+svars == <<bonded, online, calls, sends, batches, blocks, param, ibc>>
 vars == <<svars, op>>
-Abs == [bonded |-> bonded, online |-> online, calls |-> calls, sends |-> sends, batches |-> batches, blocks |-> blocks]
+Abs == [bonded |-> bonded, online |-> online, calls |-> calls, sends |-> sends, batches |-> batches, blocks |-> blocks, param |-> param, ibc |-> ibc]
 Op(name, k, res) == [name |-> name, k |-> k, res |-> res]
-Init == bonded = 0 /\ online = 0 /\ calls = 0 /\ sends = 0 /\ batches = 0 /\ blocks = 0 /\ op = Op("Init", 0, "ok")
+Init == bonded = 0 /\ online = 0 /\ calls = 0 /\ sends = 0 /\ batches = 0 /\ blocks = 0 /\ param = 1 /\ ibc = 0 /\ op = Op("Init", 0, "ok")
 Rej(o) == op' = [o EXCEPT !.res = "rej"] /\ UNCHANGED svars
 
 BondAll == LET this == Op("BondAll", N, "ok") IN
   IF bonded # 0 THEN Rej(this) ELSE
-  bonded' = N /\ online' = N /\ op' = this /\ UNCHANGED <<calls, sends, batches, blocks>>
+  bonded' = N /\ online' = N /\ op' = this /\ UNCHANGED <<calls, sends, batches, blocks, param, ibc>>
 \* MsgUpdateChainOracles dropping k online oracles at once (refused at >= 30% of the online power)
 Drop(k) == LET this == Op("Drop", k, "ok") IN
   IF ~(online >= k + 1 /\ k * 100 < 30 * online) THEN Rej(this) ELSE
-  online' = online - k /\ op' = this /\ UNCHANGED <<bonded, calls, sends, batches, blocks>>
+  online' = online - k /\ op' = this /\ UNCHANGED <<bonded, calls, sends, batches, blocks, param, ibc>>
 \* MsgBridgeCall carrying k different coins
 Call(k) == LET this == Op("Call", k, "ok") IN
-  op' = this /\ calls' = calls + 1 /\ UNCHANGED <<bonded, online, sends, batches, blocks>>
+  op' = this /\ calls' = calls + 1 /\ UNCHANGED <<bonded, online, sends, batches, blocks, param, ibc>>
 \* k MsgSendToExternal of different senders and fees, then one MsgRequestBatch over them
 SendMany(k) == LET this == Op("SendMany", k, "ok") IN
-  op' = this /\ sends' = sends + k /\ UNCHANGED <<bonded, online, calls, batches, blocks>>
+  op' = this /\ sends' = sends + k /\ UNCHANGED <<bonded, online, calls, batches, blocks, param, ibc>>
 Batch == LET this == Op("Batch", 0, "ok") IN
   IF ~(sends > 0 /\ online > 0) THEN Rej(this) ELSE
-  op' = this /\ sends' = 0 /\ batches' = batches + 1 /\ UNCHANGED <<bonded, online, calls, blocks>>
-FxBlock == op' = Op("FxBlock", 0, "ok") /\ blocks' = blocks + 1 /\ UNCHANGED <<bonded, online, calls, sends, batches>>
+  op' = this /\ sends' = 0 /\ batches' = batches + 1 /\ UNCHANGED <<bonded, online, calls, blocks, param, ibc>>
+FxBlock == op' = Op("FxBlock", 0, "ok") /\ blocks' = blocks + 1 /\ UNCHANGED <<bonded, online, calls, sends, batches, param, ibc>>
+\* MsgUpdateParams by the governance authority: the batch timeout becomes k units (later batches carry it)
+SetParam(k) == LET this == Op("SetParam", k, "ok") IN
+  IF param = k THEN Rej(this) ELSE
+  op' = this /\ param' = k /\ UNCHANGED <<bonded, online, calls, sends, batches, blocks, ibc>>
+\* a deposit observed by all online oracles whose target is an IBC channel: the module sends an IBC packet
+DepositIbc == LET this == Op("DepositIbc", 0, "ok") IN
+  IF online = 0 THEN Rej(this) ELSE
+  op' = this /\ ibc' = ibc + 1 /\ UNCHANGED <<bonded, online, calls, sends, batches, blocks, param>>
 Probe == op' = Op("Probe", 0, "ok") /\ UNCHANGED svars
-Next == BondAll \/ (\E k \in Ks : Drop(k) \/ Call(k) \/ SendMany(k)) \/ Batch \/ FxBlock \/ Probe
+Next == BondAll \/ (\E k \in Ks : Drop(k) \/ Call(k) \/ SendMany(k) \/ SetParam(k)) \/ Batch \/ FxBlock \/ DepositIbc \/ Probe
 Spec == Init /\ [][Next]_vars
 View == svars
-Bounded == calls' <= MaxCalls /\ blocks' <= MaxBlocks /\ sends' <= MaxSends /\ batches' <= 2
+Bounded == calls' <= MaxCalls /\ blocks' <= MaxBlocks /\ sends' <= MaxSends /\ batches' <= 2 /\ ibc' <= MaxIbc
 EdgeDump == /\ IF op.name = "Init" \/ op'.res = "ok"
                THEN PrintT(<<"EDGE", ToJson([from |-> Abs, op |-> op', to |-> Abs'])>>)
                ELSE TRUE
